@@ -14,6 +14,7 @@ import (
 
 	datatransfer "github.com/filecoin-project/go-data-transfer/v2"
 	"github.com/filecoin-project/go-data-transfer/v2/channelmonitor"
+	"github.com/filecoin-project/go-data-transfer/v2/message"
 
 	"verif/harness/internal/doubles"
 	"verif/harness/internal/gen"
@@ -523,5 +524,159 @@ func TestC14Monitor(t *testing.T) {
 			}
 			c.Sample(map[string]any{"config": fmt.Sprintf("%+v", *cfg), "disabled": disabled, "script": sc, "api_calls": cl})
 		}
+	})
+}
+
+// TestC14Mgr: the monitor wired into the REAL manager. An initiator's channel loses its connection
+// (the transport reports a send/receive error or a disconnect); the monitor reconnects and restarts.
+// The fault placed by the case makes that fail persistently - the reconnect, the restart request on
+// the wire (push), or the re-opened transport request (pull) - or only a few times. Oracle (virtual
+// clock, quiescence): persistent failure => the channel is closed with an error exactly once and
+// ends Failed; transient failure => it is not closed and at most the configured number of
+// consecutive attempts were made; nothing happens after the channel ended.
+func TestC14Mgr(t *testing.T) {
+	vf.Run(t, "C14Mgr", vf.Opts{Bubble: true, DefaultN: 24}, func(c *vf.Case) {
+		r := c.Rng
+		pull := c.Index%2 == 0
+		fault := (c.Index / 2) % 4 // 0 none, 1 reconnect fails, 2 the restart itself fails (send / transport open), 3 both alternate
+		persistent := (c.Index/8)%2 == 0
+		maxR := uint32(2 + r.Intn(4))
+		cfg := channelmonitor.Config{AcceptTimeout: time.Hour, CompleteTimeout: time.Hour, RestartDebounce: time.Duration(1+r.Intn(200)) * time.Millisecond,
+			RestartBackoff: time.Duration(r.Intn(3)) * time.Second, MaxConsecutiveRestarts: maxR}
+		peers := gen.Peers(r, 2)
+		self, other := peers[0], peers[1]
+		f := newMgrFix(c, self, nil, withMonitor(cfg))
+		v := gen.Voucher(r, "VT0")
+		chid, err := f.open(pull, other, v, dummyCid)
+		if err != nil {
+			panic(err)
+		}
+		settle()
+		resp, _ := message.NewResponse(chid.ID, true, false, nil)
+		f.deliverResponse(chid, pull, resp)
+		f.tp.Events().OnTransferInitiated(chid)
+		settle()
+		budget := 0 // failures still to inject (transient mode)
+		if !persistent {
+			budget = 1 + r.Intn(int(maxR)-1)
+		}
+		var fmu sync.Mutex
+		failing := func() bool {
+			fmu.Lock()
+			defer fmu.Unlock()
+			if fault == 0 {
+				return false
+			}
+			if persistent {
+				return true
+			}
+			if budget > 0 {
+				budget--
+				return true
+			}
+			return false
+		}
+		connects, restartSends, reopens := 0, 0, 0
+		ntp0 := f.tp.Len()
+		f.net.SetOnConnect(func(p peer.ID) error {
+			fmu.Lock()
+			connects++
+			k := connects
+			fmu.Unlock()
+			if (fault == 1 || (fault == 3 && k%2 == 1)) && failing() {
+				return errors.New("no route to peer")
+			}
+			return nil
+		})
+		f.net.SetOnSend(func(p peer.ID, m datatransfer.Message) error {
+			if rq, ok := m.(datatransfer.Request); ok && rq.IsRestart() {
+				fmu.Lock()
+				restartSends++
+				fmu.Unlock()
+				if (fault == 2 || fault == 3) && failing() {
+					return errors.New("stream reset")
+				}
+			}
+			return nil
+		})
+		f.tp.SetOn(func(tc *doubles.TCall) error {
+			if tc.Op == "open" && tc.Chid == chid && f.tp.Len() > ntp0 {
+				fmu.Lock()
+				reopens++
+				fmu.Unlock()
+				if (fault == 2 || fault == 3) && failing() {
+					return errors.New("graphsync request could not be opened")
+				}
+			}
+			return nil
+		})
+		nev := len(f.sub.For(chid))
+		// the connection drops
+		// (send / receive errors are what the monitor restarts on; a bare disconnect notice is not)
+		if r.Intn(2) == 0 {
+			f.tp.Events().OnSendDataError(chid, errors.New("write: broken pipe"))
+		} else {
+			f.tp.Events().OnReceiveDataError(chid, errors.New("read: connection reset"))
+		}
+		time.Sleep(10 * time.Minute)
+		synctest.Wait()
+		final := f.view(chid)
+		errorsSeen, closesToTransport := 0, 0
+		for _, e := range f.sub.For(chid)[nev:] {
+			if e.Code == datatransfer.Error {
+				errorsSeen++
+			}
+		}
+		for _, tc := range f.tp.CallsFrom(ntp0) {
+			if tc.Op == "close" && tc.Chid == chid {
+				closesToTransport++
+			}
+		}
+		fmu.Lock()
+		attempts := connects
+		fmu.Unlock()
+		what := fmt.Sprintf("pull=%v fault=%d persistent=%v max=%d connects=%d restart-sends=%d reopens=%d", pull, fault, persistent, maxR, connects, restartSends, reopens)
+		if fault != 0 && persistent {
+			if final == nil || (final.Status != datatransfer.Failed && final.Status != datatransfer.Failing) {
+				c.Violation("C14", "persistent-failure-not-closed", "every reconnect/restart fails, yet after 10 virtual minutes the channel is %v (%s)", final, what)
+			}
+			if errorsSeen != 1 {
+				c.Violation("C14", fmt.Sprintf("closed-with-error-count %d", errorsSeen), "channel closed with an error %d times, want exactly once (%s)", errorsSeen, what)
+			}
+			c.Count("mgr_persistent_failures", 1)
+		} else {
+			if errorsSeen != 0 || (final != nil && (final.Status == datatransfer.Failed || final.Status == datatransfer.Failing)) {
+				c.Violation("C14", "unjustified-close", "restart succeeded within the allowed attempts, yet the channel was closed with an error: %v (%s)", final, what)
+			}
+			c.Count("mgr_recovered", 1)
+		}
+		if attempts > int(maxR)+1 {
+			c.Violation("C14", "too-many-consecutive-restarts", "%d reconnects without data progress, limit %d (%s)", attempts, maxR, what)
+		}
+		// silence after the end
+		nnet, ntp := f.net.Len(), f.tp.Len()
+		if final != nil && isTerminal(final.Status) {
+			f.tp.Events().OnSendDataError(chid, errors.New("late error"))
+			time.Sleep(10 * time.Minute)
+			synctest.Wait()
+			for _, nc := range f.net.Calls()[nnet:] {
+				if nc.Op == "connect" {
+					c.Violation("C14", "restart-after-channel-ended", "the monitor reconnected for a channel that had already ended")
+				}
+			}
+			_ = ntp
+		}
+		c.Mark("pull=%v fault=%d persistent=%v final=%v", pull, fault, persistent, final != nil && isTerminal(final.Status))
+		c.NonTrivial()
+		if c.Index < 2 {
+			c.Sample(map[string]any{"level": "manager+monitor", "pull": pull, "fault": fault, "persistent": persistent, "max_consecutive_restarts": maxR, "reconnects": connects, "restart_requests_sent": restartSends, "transport_reopens": reopens, "final": fmt.Sprint(final)})
+		}
+		// end the channel so that no monitor goroutine outlives the bubble
+		if final != nil && !isTerminal(final.Status) {
+			f.m.CloseDataTransferChannel(bg, chid)
+			time.Sleep(time.Minute)
+		}
+		f.stop()
+		time.Sleep(2 * time.Hour)
 	})
 }
